@@ -3,25 +3,11 @@
    disclosure encoding and signing are oracles of the environment record. *)
 From Coq Require Import List String Ascii Bool Arith ZArith.
 Import ListNotations.
-Require Import SDJ.Json SDJ.Wire SDJ.Model2 SDJ.Out SDJ.Split.
+Require Import SDJ.Json SDJ.Wire SDJ.Model2 SDJ.Out SDJ.Split SDJ.Issuer1.
 Local Open Scope string_scope.
 
-(* BTreeMap::remove *)
-Fixpoint obj_remove (k : string) (kvs : list (string * json)) : list (string * json) :=
-  match kvs with
-  | [] => []
-  | (k', v') :: r => if String.eqb k k' then r else (k', v') :: obj_remove k r
-  end.
-
-Fixpoint list_set {A} (i : nat) (x : A) (l : list A) : list A :=
-  match l, i with
-  | [], _ => []
-  | _ :: r, O => x :: r
-  | y :: r, S i => y :: list_set i x r
-  end.
-
-(* Vec::insert(n, x) with n clipped to the length *)
-Definition insert_at {A} (n : nat) (x : A) (l : list A) : list A := (firstn n l ++ x :: skipn n l)%list.
+(* obj_remove, list_set, insert_at and the generic build_disclosure core (disclose_here, update_at) come
+   from Issuer1.v, where the issuer theorems of the T1 files are proved for arbitrary oracles. *)
 
 (* ---------- number grammars ---------- *)
 Definition all_digits (s : string) : bool :=
@@ -92,62 +78,14 @@ Record issue_env := {
 Section I.
 Variable E : issue_env.
 
-Definition mk_disc (salt : json) (key : option string) (v : json) : disc :=
-  let s := ie_enc E (match key with Some k => [salt; JStr k; v] | None => [salt; v] end) in
-  {| d_str := s; d_digest := ie_hash E s; d_key := key; d_val := v |}.
-
-Definition placeholder_json (g : string) : json := JObj [("...", JStr g)].
+Definition mk_disc := Issuer1.mk_disc (ie_hash E) (ie_enc E).
+Definition placeholder_json := Issuer1.placeholder_json.
 
 (* last step of build_disclosure, on the parent node *)
-Definition disclose_here (key : string) (salt : json) (parent : json) : res (json * disc) :=
-  match parent with
-  | JArr xs =>
-      match parse_usize key with
-      | None => Err
-      | Some i =>
-          match nth_error xs i with
-          | None => Err
-          | Some v => let d := mk_disc salt None v in
-                      Ok (JArr (list_set i (placeholder_json (d_digest d)) xs), d)
-          end
-      end
-  | JObj kvs =>
-      match obj_get key kvs with
-      | None => Err
-      | Some v =>
-          if String.eqb key "_sd" || String.eqb key "..." then Err
-          else
-            let d := mk_disc salt (Some key) v in
-            let g := d_digest d in
-            let kvs1 := obj_remove key kvs in
-            match obj_get "_sd" kvs1 with
-            | Some (JArr ds) => Ok (JObj (obj_insert "_sd" (JArr (insert_at (ie_pos E g) (JStr g) ds)) kvs1), d)
-            | Some _ => Err
-            | None => Ok (JObj (obj_insert "_sd" (JArr [JStr g]) kvs1), d)
-            end
-      end
-  | _ => Err
-  end.
+Definition disclose_here := Issuer1.disclose_here (ie_hash E) (ie_enc E) parse_usize (ie_pos E).
 
 (* Value::pointer_mut followed by the in-place edit, as a functional update *)
-Fixpoint update_at {A} (toks : list string) (f : json -> res (json * A)) (j : json) : res (json * A) :=
-  match toks with
-  | [] => f j
-  | tok :: rest =>
-      match j with
-      | JObj kvs =>
-          match obj_get tok kvs with
-          | Some v => do (v', a) <- update_at rest f v; Ok (JObj (obj_insert tok v' kvs), a)
-          | None => Err end
-      | JArr xs =>
-          match parse_index tok with
-          | Some i => match nth_error xs i with
-                      | Some v => do (v', a) <- update_at rest f v; Ok (JArr (list_set i v' xs), a)
-                      | None => Err end
-          | None => Err end
-      | _ => Err
-      end
-  end.
+Definition update_at {A} := @Issuer1.update_at parse_index A.
 
 Definition build_disclosure (claims : json) (path : string) (salt : json) : res (json * disc) :=
   match split_path path with
